@@ -1,6 +1,7 @@
 package props
 
 import (
+	"regexp"
 	"bytes"
 	stdjson "encoding/json"
 	"fmt"
@@ -21,6 +22,7 @@ func init() {
 	work.Register("C05", "c05.bytes", c05Bytes)
 	work.Register("C05", "c05.tokens", c05Tokens)
 	work.Register("C05", "c05.edits", c05Edits)
+	work.Register("C05", "c05.bytes256", c05Bytes256)
 	work.Register("C05", "c05.strings", c05Strings)
 	work.Register("C05", "c05.numbers", c05Numbers)
 }
@@ -30,7 +32,7 @@ func init() {
 func c05StdClass(b []byte) string {
 	var x interface{}
 	if err := stdjson.Unmarshal(b, &x); err != nil {
-		return util.StdErrClass(err.Error())
+		return c05FoldBytes(util.StdErrClass(err.Error()))
 	}
 	return "std-accepts"
 }
@@ -383,6 +385,54 @@ func c05Edits(c *work.Ctx) {
 }
 
 var _ = reflect.TypeOf
+
+// c05FoldBytes: bytes outside the 27-symbol alphabet (they occur in c05.bytes256 only) are folded
+// into three classes, so that one cause does not get a class per byte value: the control
+// characters encoding/json spells \a \b \f \v and DEL, and the punctuation that has no role in JSON.
+var reFoldQuoted = regexp.MustCompile(`'(\\[abfv]|\x7f|[!#$%&()*/;<=>?@^_` + "`" + `|~])'`)
+
+func c05FoldBytes(cls string) string {
+	return reFoldQuoted.ReplaceAllStringFunc(cls, func(m string) string {
+		if m == "'\x7f'" {
+			return "'DEL'"
+		}
+		return "'P'"
+	})
+}
+
+// c05Bytes256: the byte alphabet of the other enumerations has 27 symbols; here every one of the
+// 256 byte values is inserted at, and substituted for, every position of the depth-1 grammar
+// texts and of a few texts with white space, strings, numbers and nesting (a table-driven
+// scanner has one entry per byte value, and each entry is a decision).
+func c05Bytes256(c *work.Ctx) {
+	docs := universe.Docs(1)
+	docs = append(docs, ` [ 1 , 2 ] `, `{"a" : 1 , "b":[true,null]}`, `"str"`, `-1.5e+3`, `[{"k":"v"},[]]`, "\n{\n\"a\"\n:\n1\n}\n", `[1,"a",false]`, `{"a":{"b":[1]}}`)
+	if !c.Quick() {
+		docs = append(docs, universe.Docs(2)...)
+	}
+	var buf []byte
+	run := func(b []byte) {
+		if c.Begin(b) {
+			c05Typed(c, b)
+			c05Core(c, b, true)
+			c.EndCase()
+		}
+	}
+	for _, d := range docs {
+		src := []byte(d)
+		for pos := 0; pos <= len(src); pos++ {
+			for v := 0; v < 256; v++ {
+				buf = append(append(append(buf[:0], src[:pos]...), byte(v)), src[pos:]...)
+				run(buf)
+				if pos < len(src) && byte(v) != src[pos] {
+					buf = append(buf[:0], src...)
+					buf[pos] = byte(v)
+					run(buf)
+				}
+			}
+		}
+	}
+}
 
 // ---- (d) string-literal and number-literal alphabets ------------------------
 
